@@ -495,7 +495,9 @@ def oracle_regroup(o, P, R):
                                   key=lambda t: t[2]))
     else:
         if o.grp == 'sub':
-            classes = [(None, P)] if P else []
+            # one row per account, labelled with the end of the date range
+            end = datetime.date.fromordinal(max(r.days for r in P) + EPOCH).strftime('- %y-%b-%d') if P else None
+            classes = [(end, P)] if P else []
         elif o.grp == 'payee':
             classes = [(p.decode(), [r for r in P if r.payee.encode() == p]) for p in sorted({r.payee.encode() for r in P})]
         else:
@@ -530,6 +532,27 @@ def oracle_regroup(o, P, R):
         out.append(('%s:grand-total' % name, 'reg %s: the grand total differs from the plain register' % o.text(),
                     vsum(R), vsum(P)))
     return out
+
+
+def judge(o, outs):
+    """evaluate the property on ledger's outputs for option set o -> (reference rows, findings)"""
+    R = outs[o.text()]
+    found, ref = [], None
+    if o.head is not None or o.tail is not None:
+        ref = outs.get(o.but(head=None, tail=None).text())
+        if ref is not None:
+            found = oracle_window(o, ref, R)
+    elif o.sort and not o.regroups():
+        ref = outs.get(o.but(sort=None).text())
+        if ref is not None and not isinstance(ref, str):
+            found = oracle_sort(o, ref, R)
+    elif o.regroups() and not o.sort and not (o.grp != 'none' and o.coll is not None):
+        ref = outs.get(o.but(grp='none', coll=None).text())
+        if ref is not None:
+            found = oracle_regroup(o, ref, R)
+    elif isinstance(R, str) and R != 'ERR:virtual-mismatch':
+        found = [('report:error', 'reg %s fails' % o.text(), R, 'a register')]
+    return ref, found
 
 
 # ------------------------------------------------------------------------------------- the run
@@ -591,7 +614,7 @@ def run(ctx, n_override=None, oracle_only=False):
                 'and negative, --collapse/--subtotal/--by-payee/--dow/--depth 1-3, alone, with --real/--cleared/--pending/'
                 'an account query, and combined in chain order); a case is non-trivial when the option changes the rows of '
                 'the reference register, or N lies strictly inside 0..count; distinct by journal text + option text')
-    nj = n_override or ctx.scale(150, 1600)
+    nj = n_override or ctx.scale(150, 1200)
     thorough = ctx.tier == 'thorough'
     all_model_lines, pending = [], []
     for j in range(nj):
@@ -624,29 +647,14 @@ def run(ctx, n_override=None, oracle_only=False):
                    ('+' + (o.grp if o.grp != 'none' else '') + ('collapse' if o.coll == 0 else ('depth' if o.coll else '')) if o.regroups() else '')
             res.count('option:' + (kind.strip('+') or 'plain'))
             res.count('filter:' + ((('real' if o.real else '') + ('state%d' % o.state if o.state else '') + ('query' if o.query else '')) or 'none'))
-            found = []
-            ref = None
-            if o.head is not None or o.tail is not None:
-                ref = outs.get(o.but(head=None, tail=None).text())
-                if ref is not None:
-                    found = oracle_window(o, ref, R)
-            elif o.sort and not o.regroups():
-                ref = outs.get(o.but(sort=None).text())
-                if ref is not None and not isinstance(ref, str):
-                    found = oracle_sort(o, ref, R)
-            elif o.regroups() and not o.sort and not (o.grp != 'none' and o.coll is not None):
-                ref = outs.get(o.but(grp='none', coll=None).text())
-                if ref is not None:
-                    found = oracle_regroup(o, ref, R)
-            elif isinstance(R, str) and R != 'ERR:virtual-mismatch':
-                found = [('report:error', 'reg %s fails' % o.text(), R, 'a register')]
+            ref, found = judge(o, outs)
             if ref is not None and not isinstance(ref, str) and not isinstance(R, str):
                 nrun = len({r.line for r in ref})
                 inner = (o.head is not None and 0 < o.head < nrun) or (o.tail is not None and 0 < o.tail < nrun)
                 if inner or [r.full() for r in ref] != [r.full() for r in R]:
                     res.nontrivial.add('%s\n%s' % (text, o.text()))
             for key, desc, obs, req in found:
-                res.violations.append(dict(key=key, desc=desc, case=dict(journal=text, args=o.args()),
+                res.violations.append(dict(key=key, desc=desc, case=dict(journal=text, args=o.args(), opt=dict(o.__dict__)),
                                            observed=str(obs)[:1500], required=str(req)[:1500]))
             if len(res.samples) < 4 and o.regroups() and not isinstance(R, str) and len(R) > 2:
                 res.samples.append(dict(journal=text[:600], args=o.args(), rows=[r.full() for r in R][:4]))
@@ -681,11 +689,19 @@ def search(ctx, broken):
 def replay(ctx, obj):
     res = lib.Result()
     case = obj.get('case') or {}
-    if 'journal' in case:
+    if 'journal' in case and 'opt' in case:
         path = ctx.path('replay.dat')
         open(path, 'w').write(case['journal'])
-        st, out, err = lib.run_ledger(['-f', path, 'reg', '--format', FMT.replace('\\n', '\n'), '--empty'] + list(case.get('args', [])))
-        print('replay: reg --empty %s\n%s%s' % (' '.join(case.get('args', [])), out.decode('utf-8', 'replace'), err.decode('utf-8', 'replace')))
+        o = Opt(**case['opt'])
+        todo = [o, o.but(head=None, tail=None), o.but(sort=None), o.but(grp='none', coll=None)]
+        outs = {}
+        for x in todo:
+            if x.text() not in outs:
+                b = lib.run_repl(path, ["reg --format '%s' --empty %s" % (FMT, ' '.join(x.args()))])
+                outs[x.text()] = parse_block(b[0])
+                print('replay: reg --empty %s\n%s' % (x.text(), b[0]))
+        ref, found = judge(o, outs)
         print('required: %s' % obj.get('required'))
-        res.violations.append(dict(key=obj.get('key', '?'), desc=obj.get('desc', '')))
+        for key, desc, obs, req in found:
+            res.violations.append(dict(key=key, desc=desc))
     return res
